@@ -9,16 +9,24 @@ Definition nb (b : bool) : N := if b then 1 else 0.
 
 Definition mode_of (n : N) : mode := if n =? 1 then SsoServer else if n =? 2 then SsoProxy else Standalone.
 
-Definition mk_rconfig (mode idporten : N) (prefixes : list bytes) : rconfig :=
-  {| rc_mode := mode_of mode; rc_idporten := negb (idporten =? 0); rc_prefixes := prefixes |}.
+(* the configured ingresses as (scheme://host, URL.Path) pairs; the prefixes are what the model of ParseIngresses
+   makes of them (Model/Router.v rt_ingress_paths) *)
+Definition ings_of (l : list (bytes * bytes)) : list ringress :=
+  map (fun x => {| ri_origin := fst x; ri_path := snd x |}) l.
+
+Definition mk_rconfig (mode idporten : N) (ings : list (bytes * bytes)) : rconfig :=
+  rconfig_of_ingresses (mode_of mode) (negb (idporten =? 0)) (ings_of ings).
+
+(* Ingresses.Paths() for the configured ingresses (the driver sorts both sides) *)
+Definition entry_ingress_paths (ings : list (bytes * bytes)) : list bytes := rt_ingress_paths (ings_of ings).
 
 (* columns of `wwh router`: handler reached (rt_endpoint code, 0 = none), status (200 for the stub
    handlers), NoCache headers present, decoded path under an owned subtree *)
-Definition entry_rt_route (mode idporten : N) (prefixes : list bytes) (method raw path hmode hdest : bytes)
+Definition entry_rt_route (mode idporten : N) (ings : list (bytes * bytes)) (method raw path hmode hdest : bytes)
            (accepts : list bytes) (acrm : bytes) : list N :=
-  let c := mk_rconfig mode idporten prefixes in
+  let c := mk_rconfig mode idporten ings in
   let h := {| h_mode := hmode; h_dest := hdest; h_accept := accepts; h_acrm := acrm |} in
-  let owned := nb (under_ownedb prefixes path) in
+  let owned := nb (under_ownedb (rc_prefixes c) path) in
   match respond c method raw path h with
   | RHandler e nc => [endpoint_code e; 200; nb nc; owned]
   | RStatus s nc => [0; s; nb nc; owned]
@@ -36,10 +44,10 @@ Definition entry_pct_decode (s : bytes) : option bytes := pct_decode s.
 Definition entry_set_path (s : bytes) : option (bytes * bytes) := set_path s.
 
 (* like entry_rt_route, but Path / RawPath are computed by the model from the request target's path *)
-Definition entry_route_target (mode idporten : N) (prefixes : list bytes) (method p hmode hdest : bytes)
+Definition entry_route_target (mode idporten : N) (ings : list (bytes * bytes)) (method p hmode hdest : bytes)
            (accepts : list bytes) (acrm : bytes) : list N :=
   match set_path p with
-  | Some (path, raw) => entry_rt_route mode idporten prefixes method raw path hmode hdest accepts acrm
+  | Some (path, raw) => entry_rt_route mode idporten ings method raw path hmode hdest accepts acrm
   | None => []
   end.
 
@@ -48,8 +56,8 @@ Definition entry_route_target (mode idporten : N) (prefixes : list bytes) (metho
 Definition walk_rows {D} (pre : bytes) (nm : D -> N) (rs : list (route D)) : list (N * bytes * N) :=
   flat_map (fun r => map (fun m => (meth_code m, pre ++ r_pat r ++ (if r_catch r then [42] else []), nm (r_dest r))) (r_meths r)) rs.
 
-Definition entry_route_table (mode idporten : N) (prefixes : list bytes) (base : N) : list (N * bytes * N) :=
-  let c := mk_rconfig mode idporten prefixes in
+Definition entry_route_table (mode idporten : N) (ings : list (bytes * bytes)) (base : N) : list (N * bytes * N) :=
+  let c := mk_rconfig mode idporten ings in
   (* top level: GET / (inside the group: +2), catch-all Wildcard (+0); chi.Walk does not report the
      mount stubs (p, p/) and replaces the mount's catch-all row by the rows of the sub-router *)
   walk_rows [] (fun d => match d with TWild => base | _ => base + 2 end)
